@@ -25,7 +25,8 @@ DQOK(s) == (s = <<>> \/ s[Len(s)] # "BSL") /\ \A i \in 1..(Len(s) - 1) : ~(s[i] 
 BQOK(s) == \A i \in 1..Len(s) : s[i] # "BQ"
 
 Texts == { <<"t">>, <<" ">>, <<"NL">>, <<"QUOT", "q", "APOS">>, <<"LBR", "x", "RBR">>, <<"MB", "CJK">>, <<"PCT", ">">>, <<"<", "b", ">">>,
-           <<"AMP", "a", "m", "p", ";">>, <<"HASH">>, <<"BSL", "n">> }
+           <<"AMP", "a", "m", "p", ";">>, <<"HASH">>, <<"BSL", "n">>,
+           <<"n", "NUL", "m">> }       \* a NUL byte is a byte of the text like any other (not the end of the input)
 
 Items ==
   { [k |-> "text", s |-> t] : t \in Texts }
